@@ -10,6 +10,8 @@ include!("../../common/glue.rs");
 mod util;
 #[path = "../../tvc/src/report.rs"]
 mod report;
+#[path = "../../tvc/src/blackbox.rs"]
+mod blackbox;
 
 pub mod verif_shim {
     pub use ::std::*;
@@ -451,6 +453,73 @@ fn case_json(script: &[u8], bound: usize, choices: &[usize]) -> J {
     ])
 }
 
+/// E7 for C05: one script on the optimised binary with real threads (one schedule, labelled so).
+fn blackbox_script(bin: &str, script: &[u8]) -> Result<(), String> {
+    use std::time::Duration;
+    let t = Duration::from_secs(10);
+    let mut e = blackbox::Engine::start(bin)?;
+    e.send("setoption name Hash value 1")?;
+    let (mut gos, mut isr) = (0usize, 0usize);
+    e.send("isready")?;
+    isr += 1;
+    e.wait_for_count("readyok", isr, t)?;
+    let (mut outstanding, mut can_arrive) = (false, false);
+    let mut full = script.to_vec();
+    if !full.ends_with(b"Q") {
+        full.push(b'E');
+    }
+    for c in full {
+        match c {
+            b'I' => {
+                e.send("isready")?;
+                isr += 1;
+                e.wait_for_count("readyok", isr, t).map_err(|m| format!("isready not answered: {m}"))?;
+            }
+            b'N' => e.send("ucinewgame")?,
+            b'P' => e.send("position startpos moves e2e4")?,
+            b'H' => e.send("setoption name Hash value 2")?,
+            b'F' | b'D' | b'G' => {
+                e.send(match c {
+                    b'F' => "go depth 1",
+                    b'D' => "go depth 3",
+                    _ => "go infinite",
+                })?;
+                gos += 1;
+                outstanding = true;
+                can_arrive = c != b'G';
+            }
+            b'S' => {
+                e.send("stop")?;
+                if outstanding {
+                    can_arrive = true;
+                }
+            }
+            b'A' => {
+                e.wait_for_count("bestmove", gos, t).map_err(|m| format!("go not answered by bestmove: {m}"))?;
+                outstanding = false;
+            }
+            b'Q' => {
+                return e.quit(t).map(|_| ()).map_err(|m| format!("quit: {m}"));
+            }
+            b'E' => {
+                if outstanding && !can_arrive {
+                    e.send("stop")?;
+                }
+                e.wait_for_count("bestmove", gos, t).map_err(|m| format!("go not answered by bestmove: {m}"))?;
+                e.send("isready")?;
+                isr += 1;
+                e.wait_for_count("readyok", isr, t).map_err(|m| format!("isready not answered at the end: {m}"))?;
+                if e.count("bestmove") != gos {
+                    return Err(format!("{} bestmove lines for {gos} go commands", e.count("bestmove")));
+                }
+                return e.quit(t).map(|_| ()).map_err(|m| format!("quit: {m}"));
+            }
+            _ => {}
+        }
+    }
+    Ok(())
+}
+
 struct Tier {
     /// (max script length, preemption bound)
     levels: Vec<(usize, usize)>,
@@ -538,6 +607,26 @@ fn c05(run: &Run) -> i32 {
         run.machinery_error("vacuity guard: every script has the same number of schedules".to_string());
     }
     *run.traces_validated.lock().unwrap() = execs;
+    // E7: the same scripts on the optimised binary
+    match blackbox::binary() {
+        None => run.machinery_error("E7: VERIF_ENGINE_BIN is not set or the optimised engine binary is missing (./check builds it)".to_string()),
+        Some(bin) => {
+            let bb_len = if run.quick() { 4 } else { 5 };
+            // quick: all scripts up to length 3, and those of length 4 that stop or reconfigure after a go
+            let bb: Vec<&Vec<u8>> = scripts.iter().filter(|s| s.len() <= bb_len && (!run.quick() || s.len() <= 3 || (s.iter().any(|c| b"FDG".contains(c)) && s.iter().any(|c| b"NH".contains(c)) && s.contains(&b'S')))).collect();
+            let n = std::sync::atomic::AtomicU64::new(0);
+            util::par_for(bb.len(), |i| {
+                n.fetch_add(1, std::sync::atomic::Ordering::Relaxed);
+                if let Err(m) = blackbox_script(&bin, bb[i]) {
+                    let lines: Vec<J> = bb[i].iter().map(|c| J::s(letter_name(*c))).collect();
+                    run.violation("blackbox-hang", format!("blackbox-hang|script {}", String::from_utf8_lossy(bb[i])), J::obj(vec![("kind", J::s("uci-blackbox-script")), ("script", J::s(String::from_utf8_lossy(bb[i]).to_string())), ("lines", J::Arr(lines))]), format!("optimised binary, script [{}]: {m}", script_text(bb[i])));
+                }
+            });
+            let k = n.load(std::sync::atomic::Ordering::Relaxed);
+            run.family("E7-SCRIPTS", &format!("well-formed scripts of length <= {bb_len} (quick tier: all up to length 3, of length 4 those with a go, a stop and a ucinewgame/setoption) on the optimised binary with real threads (go infinite on the start position); 10 s per awaited answer"), k, k, true, "one schedule per script — a sample of schedules, not an enumeration");
+            *run.traces_validated.lock().unwrap() += k;
+        }
+    }
     run.assume("shuttle explores sequentially consistent interleavings; the only atomic of the protocol is the stop flag (Relaxed), whose late visibility can only delay the observation of a stop");
     run.assume("an unbounded search (go infinite) is modelled as a blocking wait at its polling point (hook H1): between polls the search performs no synchronisation");
     run.assume("preemption-bounded: a schedule needing more preemptions than the stated bound is not explored; yields (spin-waits) are free");
